@@ -83,6 +83,38 @@ func genParse(rng *h.Rng, emit func(string), count int) {
 	emitP("$"+strings.Repeat("..a", 12), strings.Repeat(`{"a":`, 12)+"1"+strings.Repeat("}", 12))
 	emitP(strings.Repeat("//a", 6), strings.Repeat("<a>", 6)+"1"+strings.Repeat("</a>", 6))
 	emitP(strings.Repeat("/a", 1500), strings.Repeat("<a>", 1500)+strings.Repeat("</a>", 1500))
+	// ill-typed expressions: every binary operator of the two expression languages applied to every pair of
+	// operand kinds (number, string, boolean, attribute / member, node-set / container, context, function
+	// result, null), as a predicate that IS evaluated on the document. The evaluators convert operands through
+	// reflection and panic with values of several Go types (error, runtime.Error, string, ...): whatever
+	// the recovery in dataParse does with the recovered value must work for all of them.
+	xdoc := `<a><b x="1">t</b><b x="2">2</b><c/></a>`
+	xopnd := []string{"1", "'x'", "true()", "@x", "c", ".", "count(c)", "string(@x)", "/a/b"}
+	for _, op := range []string{"+", "-", "*", "div", "mod", "=", "!=", "<", ">=", "and", "or", "|"} {
+		for _, l := range xopnd {
+			for _, r := range xopnd {
+				emitP("/a/b["+l+" "+op+" "+r+"]", xdoc)
+			}
+		}
+	}
+	for _, f := range []string{"-'x'", "-@x", "-true()", "sum('x')", "sum(1)", "count(1)", "count('x')", "number(c)", "floor('x')", "round(@x)", "ceiling(true())",
+		"substring(1,2)", "substring('abc','x')", "string-length(1)", "contains(1,2)", "starts-with(@x,1)", "not(1,2)", "concat(1)", "translate(1,2,3)", "normalize-space(1)", "name(1)", "local-name('x')", "lang(1)", "position('x')", "last(1)", "boolean()", "true(1)", "id(1)"} {
+		emitP("/a/b["+f+"]", xdoc)
+		emitP("/a/b["+f+" = 1]", xdoc)
+	}
+	jdoc := `[{"a":1,"s":"x","t":true,"n":null,"o":{"k":[1,2]}},{"a":2,"s":"2","t":false,"n":null,"o":[]}]`
+	jopnd := []string{"1", "'x'", "true", "null", "@.a", "@.s", "@.t", "@.n", "@.o", "@", "@.missing"}
+	for _, op := range []string{"+", "-", "*", "/", "%", "**", "==", "!=", "<", ">=", "&&", "||", "=~", "<<", ">>", "&", "|", "^"} {
+		for _, l := range jopnd {
+			for _, r := range jopnd {
+				emitP("$[?("+l+" "+op+" "+r+")]", jdoc)
+			}
+		}
+	}
+	for _, f := range []string{"!@.s", "-@.s", "~@.s", "sin('x')", "length(1)", "factorial(-1)", "factorial('x')", "sqrt(-1)", "ln(0)", "not(1)", "abs(null)", "round(@.o)", "pow10(99999)", "(@.a)(1)", "@.a.b.c", "@[0]", "@['a','s']", "@.o.k[5]"} {
+		emitP("$[?("+f+")]", jdoc)
+		emitP("$[("+f+")]", jdoc)
+	}
 	for i := 0; i < count; i++ {
 		if rng.Intn(2) == 0 {
 			doc := jsonVal(rng, 1+rng.Intn(4))
